@@ -59,7 +59,7 @@ func buildTimeCodec(schema avro.Schema, typ reflect.Type, omit bool) (avro.Codec
 type DateCodec struct{ avro.Int32Codec }
 
 func (c DateCodec) Read(r *avro.ReadBuf, p unsafe.Pointer) error {
-	var l int64
+	var l int32
 	if err := c.Int32Codec.Read(r, unsafe.Pointer(&l)); err != nil {
 		return err
 	}
@@ -81,7 +81,13 @@ func (c DateCodec) Omit(p unsafe.Pointer) bool {
 func (c DateCodec) Write(w *avro.WriteBuf, p unsafe.Pointer) {
 	t := *(*time.Time)(p)
 	// TODO: wrangle this into Time.AppendFormat?
-	day := int32(t.Unix() / (60 * 60 * 24))
+	// Days since the epoch, rounding towards the past for times before 1970.
+	secs := t.Unix()
+	days := secs / (60 * 60 * 24)
+	if secs%(60*60*24) < 0 {
+		days--
+	}
+	day := int32(days)
 
 	c.Int32Codec.Write(w, unsafe.Pointer(&day))
 }
